@@ -424,7 +424,7 @@ pub fn wf<P: PType>(st: &MapSt<P>, cx: &Cx) -> (Vec<Viol>, u64) {
     view_walk(&mut out, &map.view(), None, 0, cx.uni.width, &mut acc);
     let n = acc.len() as u64;
     // the walk through the view API equals the walk through the hook dump
-    let hook: Vec<(GK, u128, bool, bool, bool)> = st.walk.nodes.iter().map(|n| (n.key, n.repr, n.has_value, n.left.is_some(), n.right.is_some())).collect();
+    let hook: Vec<(GK, u128, bool, bool, bool)> = st.walk().nodes.iter().map(|n| (n.key, n.repr, n.has_value, n.left.is_some(), n.right.is_some())).collect();
     expect!(out, acc == hook, "C15", "view walk", "view-walk-differs-from-arena", "views: {:x?}\narena: {:x?}", acc, hook);
     // the number of valued nodes is the number of entries
     expect!(out, acc.iter().filter(|a| a.2).count() == st.model.len(), "C15", "view walk", "valued-nodes-vs-entries", "{} valued nodes, {} entries", acc.iter().filter(|a| a.2).count(), st.model.len());
@@ -603,7 +603,7 @@ pub fn churn<P: PType>(st: &MapSt<P>, cx: &Cx) -> (Vec<Viol>, u64) {
         expect!(out, end == after2, "C16", "remove_children/retain cycle", "arena-grows-under-churn", "selector {:x?}: arena has {} slots after 2 rounds and {} after 8", k, after2, end);
     }
     // a canonical map emptied by remove needs no more nodes than a new one
-    if crate::arena::is_canonical(&st.walk) {
+    if crate::arena::is_canonical(st.walk()) {
         for rev in [false, true] {
             let mut m = st.map.clone();
             let mut ks: Vec<GK> = st.model.keys();
@@ -637,7 +637,7 @@ pub fn clone_indep<P: PType>(st: &MapSt<P>, cx: &Cx) -> (Vec<Viol>, u64) {
         let mut model = st.model.clone();
         // a clone is a fully usable map: the operation must behave on it as on the original
         match crate::viol::guarded(|| {
-            let vs = crate::ops::apply(&mut c, &mut model, &st.walk, op, 9000, cx);
+            let vs = crate::ops::apply(&mut c, &mut model, st.walk(), op, 9000, cx);
             let bad = compare_entries("PrefixMap::iter", &crate::ops::collect_iter(&c), &model.entries()).is_some() || c.len() != model.len();
             (vs, bad)
         }) {
@@ -663,7 +663,7 @@ pub fn clone_indep<P: PType>(st: &MapSt<P>, cx: &Cx) -> (Vec<Viol>, u64) {
         let kd = keep.verif_dump();
         let mut o2 = orig.clone();
         let mut model2 = st.model.clone();
-        let _ = crate::ops::apply(&mut o2, &mut model2, &st.walk, op, 9000, cx);
+        let _ = crate::ops::apply(&mut o2, &mut model2, st.walk(), op, 9000, cx);
         if !same(&kd, &keep.verif_dump()) {
             out.push(Viol::new("C19", "Clone::clone", "clone-shares-state", format!("{} on the original changed an earlier clone", op.describe(cx.uni))));
             break;
